@@ -1,10 +1,20 @@
 """C16 — broker connection (broker/client.go): see coq/Broker/Conn.v, ConnSpec.v, coq/Props/C16.v."""
 import os, sys
 sys.path.insert(0, os.path.dirname(os.path.abspath(__file__)))
-import _bc
+import _bc, _sys
 
 ASSUMPTIONS = _bc.ASSUMPTIONS
 
 
 def run(ck):
     _bc.run_bc(ck, "c16", set("c16_bound c16_slots_not_lost".split()))
+    if ck.replay:
+        return
+    ev, di = ck.evaluations, ck.distinct
+    rule = ck.rule
+    ex = _sys.run_sys(ck, "c16")
+    ck.evaluations = ev + ck.stats.get("direct_clauses_evaluated", 0)
+    ck.distinct = di + ck.stats.get("scenarios", 0)
+    ck.rule = rule + "; plus whole broker back-pressure scenarios (window 1..3, session queue 1..3, bursts larger than both, subscriber acknowledging at once or after a pause): every message arrives, in order, the publisher gets every acknowledgement (progress, in_order, shutdown)"
+    if ex:
+        ck.samples = ck.samples[:4] + [l for l in ex if l.startswith("direct ")][:3]
